@@ -116,11 +116,21 @@ pub fn chaos_case(ctx: &Ctx, case: u64, acc: &mut Acc, opts: &ChaosOpts) -> Resu
             (i, Op::AddBroadcast(make_item(item_tag, r.below(4) as u8, r.below(4) as u8, len, 0xAB)), false)
         } else if opts.set_config && r.chance(1, 2) {
             let mut c2 = peers[i].node.cfg.clone();
-            match r.below(4) {
+            match r.below(7) {
                 0 => c2.tx = *r.pick(&[1u8, 2, 5, 20]),
                 1 => c2.k = r.range(1, 4) as usize,
                 2 => c2.pg = None,
-                _ => c2.pa = None,
+                3 => c2.pa = None,
+                4 => c2.pad = None,
+                _ => {
+                    // switch a periodic task on (refused when it is off; a change of parameters otherwise)
+                    let v = Some((r.range(c2.p / 3, c2.p * 4), r.range(1, 4) as usize));
+                    match r.below(3) {
+                        0 => c2.pa = v,
+                        1 => c2.pad = v,
+                        _ => c2.pg = v,
+                    }
+                }
             }
             (i, Op::SetConfig(c2), false)
         } else {
